@@ -150,7 +150,7 @@ func runBatch(probes []Probe, perChild time.Duration, mode string) []ProbeResult
 		in, _ := json.Marshal(probes[start:])
 		ctx, cancel := context.WithTimeout(context.Background(), perChild)
 		cmd := exec.CommandContext(ctx, self)
-		cmd.Env = append(os.Environ(), childEnv+"="+mode, "GOMEMLIMIT=768MiB")
+		cmd.Env = append(os.Environ(), childEnv+"="+mode, "GOMEMLIMIT=768MiB", "GOTRACEBACK=none")
 		cmd.Stdin = bytes.NewReader(in)
 		var stdout, stderr bytes.Buffer
 		cmd.Stdout = &stdout
